@@ -162,7 +162,7 @@ class FormatConstraintEvaluation:
 
 
 def _evaluation_method(ex, st, name, i):
-    return Opaque("evalmethod", {"is_async": ex.fresh(name + ".is_async", z3.BoolSort())})
+    return Opaque("evalmethod", {"is_async": ex.fresh(name + ".is_async", z3.BoolSort()), "not_none": True})
 
 
 def _evalmethod_call(ex, st, args, kwargs, fn):
